@@ -126,7 +126,7 @@ func framePremises(fr *Frame, data ASlice, tcp bool, fc int64, isResponse bool) 
 func checkC02(c *Ctx, r *Report) {
 	r.floor("R2.1", 20)
 	r.floor("R2.2", 10)
-	r.floor("R2.3", 4)
+	r.floor("R2.3", 5)
 	r.floor("R2.4", 20)
 	r.floor("R2.5", 2)
 	crc := c.fnMust("packet", "CRC16")
@@ -135,6 +135,17 @@ func checkC02(c *Ctx, r *Report) {
 	}
 	for _, name := range []string{"AsTCPErrorPacket", "AsRTUErrorPacket"} {
 		c02Recogniser(c, r, c.fnMust("packet", name), name == "AsTCPErrorPacket", false)
+	}
+	// the recognisers the client constructors actually install (CRC-aware ones may also answer
+	// nil on a CRC mismatch)
+	{
+		done := map[*ssa.Function]bool{c.fnMust("packet", "AsTCPErrorPacket"): true, c.fnMust("packet", "AsRTUErrorPacket"): true}
+		for _, in := range installedFns(c) {
+			if in.asErr != nil && in.parse != nil && !done[in.asErr] {
+				done[in.asErr] = true
+				c02RecogniserCRC(c, r, "R2.3", in.asErr, crcIf(crc, in.rtu), !in.rtu, false)
+			}
+		}
 	}
 	for _, name := range []string{"ParseTCPResponse", "ParseRTUResponse"} {
 		c02Dispatcher(c, r, c.fnMust("packet", name), name == "ParseTCPResponse", false)
@@ -326,6 +337,12 @@ func c02RoundTrip(c *Ctx, r *Report, pi parserInfo, crc *ssa.Function, control b
 
 // c02Recogniser: R2.3 for As{TCP,RTU}ErrorPacket.
 func c02Recogniser(c *Ctx, r *Report, fn *ssa.Function, tcp, control bool) map[string]bool {
+	return c02RecogniserCRC(c, r, "R2.3", fn, nil, tcp, control)
+}
+
+// c02RecogniserCRC: with crc != nil the recogniser may also answer nil when the trailer does not
+// equal CRC16 of the first three bytes (CRC16 uninterpreted).
+func c02RecogniserCRC(c *Ctx, r *Report, rule string, fn, crc *ssa.Function, tcp, control bool) map[string]bool {
 	fired := map[string]bool{}
 	id := fnID(fn)
 	rep := func(ok bool, what, detail, sig, pos string) {
@@ -336,15 +353,19 @@ func c02Recogniser(c *Ctx, r *Report, fn *ssa.Function, tcp, control bool) map[s
 			return
 		}
 		if ok {
-			r.ok("R2.3", id, what, pos, true)
+			r.ok(rule, id, what, pos, true)
 		} else {
-			r.fail("R2.3", id, what, pos, detail, sig)
+			r.fail(rule, id, what, pos, detail, sig)
 		}
 	}
-	an, fr := analyse(c, fn)
-	_ = an
+	an := &Analysis{ctx: c, u: newUniverse(), top: fn}
+	if crc != nil {
+		an.uninterp = map[*ssa.Function]string{crc: "crc16"}
+	}
+	fr := an.newFrame(fn, nil, nil)
+	fr.run(dnfTrue())
 	if !control {
-		r.instance("R2.3", 1)
+		r.instance(rule, 1)
 		r.funcs[id] = true
 	}
 	data, ok := fr.vals[fn.Params[0]].(ASlice)
@@ -357,13 +378,45 @@ func c02Recogniser(c *Ctx, r *Report, fn *ssa.Function, tcp, control bool) map[s
 	}
 	fcb := fr.frameBytes(data, affConst(fcOff), 1, true)
 	isExc := Conj{atomEQ(data.ln, affConst(excLen)), atomGE(fcb, affConst(128))}
+	missPremise := isExc
+	if crc != nil {
+		// an exception frame whose trailer matches: LE16(data[3:5]) == CRC16(data[0:3])
+		found := false
+		for _, uc := range an.ucalls {
+			a, isS := uc.args[0].(ASlice)
+			v, isI := uc.res.(AInt)
+			if isS && isI && a.root == data.root && a.off.isConst() && a.off.c == 0 && a.ln.isConst() && a.ln.c == excLen-2 {
+				missPremise = isExc.with(atomEQ(fr.frameBytes(data, a.ln, 2, false), v.a))
+				found = true
+			}
+		}
+		if !found {
+			rep(false, "no CRC16 call on the exception body data[0:3]", "", "no-crc-call", c.pos(fn.Pos()))
+		}
+	}
+	var rets []ReturnSite
 	for _, rs := range fr.returns {
+		nf := fr.nilness(rs.vals[0])
+		ref, isRef := rs.vals[0].(ARef)
+		if nf.kind == fConst || !isRef || ref.inner == nil {
+			rets = append(rets, rs)
+			continue
+		}
+		// merged result of an inlined recogniser: examine its nil and non-nil parts separately
+		nilPart, valPart := rs, rs
+		nilPart.state = dnfAnd(rs.state, nf.dnf(false))
+		nilPart.vals = []AV{ANil{}}
+		valPart.state = dnfAnd(rs.state, nf.dnf(true))
+		valPart.vals = []AV{ref.inner}
+		rets = append(rets, nilPart, valPart)
+	}
+	for _, rs := range rets {
 		pos := c.pos(rs.instr.Pos())
 		nf := fr.nilness(rs.vals[0])
 		if nf.kind == fConst && nf.b {
 			// nil result: must not be an exception frame
 			feas := false
-			for _, cj := range dnfAnd(rs.state, DNF{isExc}) {
+			for _, cj := range dnfAnd(rs.state, DNF{missPremise}) {
 				if !infeasible(cj) {
 					feas = true
 				}
@@ -527,4 +580,11 @@ func init() {
 		r.controls["C02/R2.4-crossed-dispatch"] = has(d, "R2.4:dispatch:")
 		r.controls["C02/R2.3-exception-as-response"] = has(d, "R2.3:exception-as-response")
 	}
+}
+
+func crcIf(crc *ssa.Function, rtu bool) *ssa.Function {
+	if rtu {
+		return crc
+	}
+	return nil
 }
